@@ -272,6 +272,18 @@ def _kind_justified_on_paths(f, idx, kind, isa_names, kind_ok):
                             and src(t.args[1]) == 'list' and src(t.args[0]) == lp.target.id)
                 if v is not None:
                     has_list = v
+            def any_list(t):
+                if not (isinstance(t, ast.Call) and src(t.func) == 'any' and len(t.args) == 1 and isinstance(t.args[0], (ast.ListComp, ast.GeneratorExp))):
+                    return False
+                comp = t.args[0]
+                g0, e_ = comp.generators[0], comp.elt
+                return src(g0.iter) == src(idx) and not g0.ifs and isinstance(e_, ast.Call) and src(e_.func) in isa_names \
+                    and len(e_.args) == 2 and src(e_.args[0]) == src(g0.target) and src(e_.args[1]) == 'list'
+            v_any = implied(p.conds, any_list)
+            if v_any is not None:
+                has_list = v_any
+                if k == 3 and v_any is False:
+                    continue
             if k is None:
                 continue
             if k == 0 and is_int is True:
